@@ -808,7 +808,7 @@ class Impl:
         cols_ok = True
         for p, (leaves, cols) in self.w.datasets().items():
             if leaves in ("MISMATCH", "NOT-A-VDS"):
-                store[self._p(p)] = leaves
+                store[self._p(p)] = (leaves,)
                 cols_ok = False
                 continue
             lv = tuple(self._leaf(x) for x in leaves)
